@@ -27,6 +27,7 @@ func init() {
 			{"C09.handle-lock", "the FUSE handle's cursor is used only under the exclusive handle lock", 2, c09HandleLock},
 			{"C09.cursor-consistency", "cursor fields change together; chunk cache invalidated when the chunk id changes", 4, c09Cursor},
 			{"C09.cor-state-needs-size-match", "the copy-on-read variant of the mount trusts a saved state only for a cache file of exactly the indexed size (shared with C10)", 1, c10Truncate},
+			{"C09.cat-copy-errors", "cat fails when copying from the seekable reader fails (a store error is never turned into success)", 1, c09CatCopyErrors},
 		},
 	})
 }
@@ -635,4 +636,23 @@ func c09SeekBoundaries(c *Ctx) {
 		}
 	}
 	c10RangeBoundaries(c)
+}
+
+// c09CatCopyErrors: every error io.Copy / io.CopyN hand back in runCat makes the command fail.
+// Store errors arrive there wrapped by the router; an "it is only EOF" exemption written with
+// errors.Is would unwrap a dropped ssh session's io.EOF and report truncated output as success.
+func c09CatCopyErrors(c *Ctx) {
+	fn := c.mustFn("cmd.runCat")
+	if fn == nil {
+		return
+	}
+	sites, bad := errPropagates(c, fn, func(name string, _ *ssa.Call) bool { return name == "io.Copy" || name == "io.CopyN" }, errPropOpts{})
+	switch {
+	case sites == 0:
+		c.bad("cmd.runCat:copy-errors", fn.Pos(), "runCat does not copy with io.Copy/io.CopyN")
+	case len(bad) > 0:
+		c.bad("cmd.runCat:copy-errors", fn.Pos(), "%s", bad[0])
+	default:
+		c.ok("cmd.runCat:copy-errors", fn.Pos(), "%d copy call(s); a failed copy makes the command fail on every path", sites)
+	}
 }
